@@ -107,19 +107,19 @@ func C02(o *core.Options) int {
 	r := core.NewReport(o, "exploration",
 		"for every world (model family representatives x tuple subsets of size<=2) and every request: commands.CheckQuery over the real resolver chain with a scripted planner, under EVERY assignment of an offered strategy to every consulted plan key (closure), x 3 tuning corners (breadth limit, read concurrency, dispatch throttling; in quick the two non-default corners run the default assignment only), each run twice; plus the request set of each world run concurrently on one resolver; plus ListObjects through servers with different pipeline/breadth tunings; oracle: one outcome per request, equal to the reference; non-trivial = requests for which some plan key offered more than one strategy (distinct by world+request)")
 	r.Assume("memory datastore; whole-engine runs use the Go scheduler's own interleaving (one per run); schedule-quantified clauses are decided by the E1 harnesses (C21/C22)",
-		"model family as in C01 (quick: one model of every 48th r0-signature class, of every 4th twin-branch class and of every 18th mixed-parent tuple-to-userset class, rotated by VERIF_SEED; thorough: every class); chains with a leftover tuple: 5 recursive models over three groups / three docs, two valid tuples plus one stored tuple the model does not admit")
+		"model family as in C01 (quick: one model of every 96th r0-signature class, of every 6th twin-branch class and of every 24th mixed-parent tuple-to-userset class, rotated by VERIF_SEED; thorough: every class); chains with a leftover tuple: 5 recursive models over three groups / three docs, two valid tuples plus one stored tuple the model does not admit")
 	if o.Replay != "" {
 		return replayC02(o, r)
 	}
 	all := e2.ValidModels(ref.Family(ref.FamilyOpts{Conds: true}))
 	reps := ref.Representatives(all, 1, o.Seed)
 	var models []*ref.Model
-	stride, r1stride, twinstride := 48, 18, 4
+	stride, r1stride, twinstride := 96, 24, 6
 	if o.Thorough() {
 		stride, r1stride, twinstride = 1, 1, 1
 	}
 	for i, m := range reps {
-		// quick: every 48th class, every 4th twin-branch class and every 18th mixed-parent TTU class (rotated by the seed)
+		// quick: every 96th class, every 6th twin-branch class and every 24th mixed-parent TTU class (rotated by the seed)
 		k := i + int(o.Seed)
 		if k%stride == 0 || (m.IsTwin() && k%twinstride == 0) || (strings.Contains(m.Signature(), "|r1=") && k%r1stride == 0) {
 			models = append(models, m)
@@ -359,13 +359,14 @@ func C02(o *core.Options) int {
 	// before (and after) the direct assignment - an order the DSL cannot write but the API accepts - reached through
 	// a userset and through a tuple-to-userset, up to 3 tuples
 	oo := so
-	oo.K = 3
-	subjects = []string{"user:a", "user:b"}
+	oo.K, oo.U = 3, ref.Universe{"user": {"user:a"}, "group": {"group:1", "group:2"}, "doc": {"doc:1"}}
+	nodes = e2.RequestNodes(oo.U)
+	subjects = []string{"user:a"}
 	e2.Sweep(r, operandOrderModels(), oo, func(env *e2.Env, w *ref.World) {
 		r.Count("worlds_operand_order", 1)
 		body(env, w)
 	})
-	subjects = allSubjects
+	nodes, subjects = e2.RequestNodes(ref.DefaultUniverse()), allSubjects
 	lap("operand-order")
 	// nested set operators over one object (ref.FlatFamily), up to 4 tuples
 	so.K, so.U = 4, ref.FlatUniverse()
@@ -412,6 +413,75 @@ func c02ListObjects(o *core.Options, r *core.Report, models []*ref.Model) {
 		{"pipeline-1-1-1", []server.OpenFGAServiceV1Option{server.WithListObjectsPipelineEnabled(true), server.WithListObjectsChunkSize(1), server.WithListObjectsBufferCapacity(1), server.WithListObjectsNumProcs(1)}},
 		{"pipeline-2-2-3", []server.OpenFGAServiceV1Option{server.WithListObjectsPipelineEnabled(true), server.WithListObjectsChunkSize(2), server.WithListObjectsBufferCapacity(2), server.WithListObjectsNumProcs(3)}},
 		{"weighted", []server.OpenFGAServiceV1Option{server.WithExperimentals("enable-list-objects-optimizations")}},
+	}
+	// wide recursive worlds: far more objects than any internal buffer of the small tunings holds (queues, chunks,
+	// breadth limits): a recursive tuple-to-userset with N children of one root, the same two levels deep, and a
+	// recursive userset with N groups under one root; the result must be complete and equal for every tuning
+	{
+		user := ref.Restr{Type: "user"}
+		mt := &ref.Model{Types: map[string]map[string]*ref.RelDef{"user": {}, "doc": {"parent": rd(ref.This(), ref.Restr{Type: "doc"}), "r0": rd(ref.Bin(ref.KUnion, ref.This(), ref.TTU("parent", "r0")), user)}}}
+		mg := &ref.Model{Types: map[string]map[string]*ref.RelDef{"user": {}, "group": {"member": rd(ref.This(), user, ref.Restr{Type: "group", Rel: "member"})}}}
+		type wide struct {
+			name     string
+			m        *ref.Model
+			typ, rel string
+			ts       []ref.Tuple
+			want     []string
+		}
+		var ws []wide
+		sizes := []int{40, 300}
+		for _, n := range sizes {
+			a := wide{name: fmt.Sprintf("ttu-fan-out-%d", n), m: mt, typ: "doc", rel: "r0", ts: []ref.Tuple{{Obj: "doc:root", Rel: "r0", User: "user:a"}}, want: []string{"doc:root"}}
+			b := wide{name: fmt.Sprintf("userset-fan-out-%d", n), m: mg, typ: "group", rel: "member", ts: []ref.Tuple{{Obj: "group:root", Rel: "member", User: "user:a"}}, want: []string{"group:root"}}
+			for i := 0; i < n; i++ {
+				a.ts = append(a.ts, ref.Tuple{Obj: fmt.Sprintf("doc:c%03d", i), Rel: "parent", User: "doc:root"})
+				a.want = append(a.want, fmt.Sprintf("doc:c%03d", i))
+				b.ts = append(b.ts, ref.Tuple{Obj: fmt.Sprintf("group:c%03d", i), Rel: "member", User: "group:root#member"})
+				b.want = append(b.want, fmt.Sprintf("group:c%03d", i))
+			}
+			ws = append(ws, a, b)
+		}
+		two := wide{name: "ttu-two-levels-20x15", m: mt, typ: "doc", rel: "r0", ts: []ref.Tuple{{Obj: "doc:root", Rel: "r0", User: "user:a"}}, want: []string{"doc:root"}}
+		for i := 0; i < 20; i++ {
+			mid := fmt.Sprintf("doc:m%02d", i)
+			two.ts = append(two.ts, ref.Tuple{Obj: mid, Rel: "parent", User: "doc:root"})
+			two.want = append(two.want, mid)
+			for j := 0; j < 15; j++ {
+				leaf := fmt.Sprintf("doc:l%02d-%02d", i, j)
+				two.ts = append(two.ts, ref.Tuple{Obj: leaf, Rel: "parent", User: mid})
+				two.want = append(two.want, leaf)
+			}
+		}
+		ws = append(ws, two)
+		r.Parallel(len(ws)*len(tunings), func(k int) {
+			w, t := ws[k/len(tunings)], tunings[k%len(tunings)]
+			env, err := e2.NewEnv(w.m, append([]server.OpenFGAServiceV1Option{server.WithRequestTimeout(0), server.WithListObjectsMaxResults(5000), server.WithListObjectsDeadline(20 * time.Second)}, t.opts...)...)
+			if err != nil {
+				return
+			}
+			defer env.Close()
+			for at := 0; at < len(w.ts); at += 90 {
+				end := at + 90
+				if end > len(w.ts) {
+					end = len(w.ts)
+				}
+				if err := env.Write(w.ts[at:end], env.ModelID); err != nil {
+					panic(err)
+				}
+			}
+			got, err := env.ListObjects(w.typ, w.rel, "user:a", nil, nil)
+			r.Eval(1)
+			r.Count("listobjects_wide_worlds", 1)
+			r.Nontrivial(core.Hash("c02wide", w.name, t.name))
+			want := append([]string{}, w.want...)
+			sort.Strings(want)
+			g := append([]string{}, got...)
+			sort.Strings(g)
+			if err != nil || strings.Join(g, ",") != strings.Join(want, ",") {
+				r.Violate("listobjects-wide-world-incomplete-or-failed/"+t.name, fmt.Sprintf("ListObjects(%s#%s@user:a) on %s with tuning %s: %d of %d objects (err=%v)", w.typ, w.rel, w.name, t.name, len(g), len(want), err),
+					map[string]any{"world": w.name, "tuning": t.name, "got": len(g), "want": len(want)})
+			}
+		})
 	}
 	sub := models
 	if !o.Thorough() && len(sub) > 20 {
